@@ -112,6 +112,17 @@ func (g *c14Gen) grouping() (jast.Node, O) {
 	}
 	g.tags[fmt.Sprintf("pairs:%d", np)] = true
 	var tree jast.Node
+	if r.Intn(12) == 0 {
+		// nothing to group: key and value expressions see no context item
+		g.tags["nothing-to-group"] = true
+		k := []jast.Node{
+			&jast.Call{Fn: &jast.Var{Name: "string"}, Args: []jast.Node{&jast.Call{Fn: &jast.Var{Name: "exists"}, Args: []jast.Node{&jast.Var{Name: ""}}}}},
+			&jast.Bin{Op: "&", L: &jast.Str{V: "n"}, R: &jast.Call{Fn: &jast.Var{Name: "count"}, Args: []jast.Node{&jast.Var{Name: ""}}}},
+			&jast.Str{V: "L"},
+			&jast.Call{Fn: &jast.Var{Name: "type"}, Args: []jast.Node{&jast.Var{Name: ""}}},
+		}[r.Intn(4)]
+		return &jast.Group{X: &jast.Name{V: r.Pick("nothing", "missing")}, Pairs: [][2]jast.Node{{k, g.valExpr()}}}, O{"arr": items}
+	}
 	switch r.Intn(4) {
 	case 0:
 		g.tags["constructor-in-path"] = true
